@@ -204,28 +204,28 @@ func realCase(c *h.Case, k int) {
 	switch {
 	case j < 16:
 		pe, pc, ve, vc := combo(j)
-		realStream(c, re, fmt.Sprintf("vs%d", j), fmt.Sprintf("s%d", j), true, fmt.Sprintf("stcp proxy enc=%v comp=%v visitor enc=%v comp=%v", pe, pc, ve, vc), rng)
+		realStream(c, re, fmt.Sprintf("vs%d", j), fmt.Sprintf("s%d", j), true, ve, vc, fmt.Sprintf("stcp proxy enc=%v comp=%v visitor enc=%v comp=%v", pe, pc, ve, vc), rng)
 	case j < 32:
 		pe, pc, ve, vc := combo(j - 16)
-		realDgram(c, re, fmt.Sprintf("vu%d", j-16), fmt.Sprintf("u%d", j-16), true, fmt.Sprintf("sudp proxy enc=%v comp=%v visitor enc=%v comp=%v", pe, pc, ve, vc), rng)
+		realDgram(c, re, fmt.Sprintf("vu%d", j-16), fmt.Sprintf("u%d", j-16), true, ve, vc, fmt.Sprintf("sudp proxy enc=%v comp=%v visitor enc=%v comp=%v", pe, pc, ve, vc), rng)
 	case j == 32:
-		realStream(c, re, "a-ownonly-badkey", "ownonly", false, "stcp visitor of the owner's user with a wrong key", rng)
+		realStream(c, re, "a-ownonly-badkey", "ownonly", false, false, false, "stcp visitor of the owner's user with a wrong key", rng)
 	case j == 33:
-		realStream(c, re, "b-ownonly", "ownonly", false, "stcp visitor with the right key, user eve, default allow-list (owner's user only)", rng)
+		realStream(c, re, "b-ownonly", "ownonly", false, true, false, "stcp visitor with the right key, user eve, default allow-list (owner's user only)", rng)
 	case j == 34:
-		realStream(c, re, "b-open", "open", true, "stcp visitor of user eve, allow-list *", rng)
+		realStream(c, re, "b-open", "open", true, true, true, "stcp visitor of user eve, allow-list *", rng)
 	case j == 35:
-		realStream(c, re, "b-eveok", "eveok", true, "stcp visitor of user eve, allow-list [eve]", rng)
+		realStream(c, re, "b-eveok", "eveok", true, false, false, "stcp visitor of user eve, allow-list [eve]", rng)
 	case j == 36:
-		realStream(c, re, "a-eveok", "eveok", false, "stcp visitor of the owner's own user, allow-list [eve]", rng)
+		realStream(c, re, "a-eveok", "eveok", false, false, true, "stcp visitor of the owner's own user, allow-list [eve]", rng)
 	case j == 37:
-		realStream(c, re, "b-open-badkey", "open", false, "stcp visitor of user eve, allow-list *, key with a trailing space", rng)
+		realStream(c, re, "b-open-badkey", "open", false, false, false, "stcp visitor of user eve, allow-list *, key with a trailing space", rng)
 	case j == 38:
-		realDgram(c, re, "a-uonly-badkey", "uonly", false, "sudp visitor of the owner's user with an empty key", rng)
+		realDgram(c, re, "a-uonly-badkey", "uonly", false, false, false, "sudp visitor of the owner's user with an empty key", rng)
 	case j == 39:
-		realDgram(c, re, "b-uonly", "uonly", false, "sudp visitor with the right key, user eve, default allow-list", rng)
+		realDgram(c, re, "b-uonly", "uonly", false, false, false, "sudp visitor with the right key, user eve, default allow-list", rng)
 	default:
-		realDgram(c, re, "b-uopen", "uopen", true, "sudp visitor of user eve, allow-list *", rng)
+		realDgram(c, re, "b-uopen", "uopen", true, false, true, "sudp visitor of user eve, allow-list *", rng)
 	}
 }
 
@@ -237,7 +237,11 @@ func realNonce(c *h.Case, legit bool) string {
 	return fmt.Sprintf("%sR%06dT%07d", t, c.Idx%1000000, h.Now()%10000000)
 }
 
-func realStream(c *h.Case, re *realEnv, visitor, proxy string, legit bool, what string, rng *rand.Rand) {
+// stcpSilent: like sudpSilent, for admitted stcp sessions that carry nothing.
+var stcpSilent sync.Map
+
+func realStream(c *h.Case, re *realEnv, visitor, proxy string, legit bool, ve, vc bool, what string, rng *rand.Rand) {
+	key := fmt.Sprintf("stcp-visitor-session-not-transparent-enc-%v-comp-%v", ve, vc)
 	addr := fmt.Sprintf("127.0.0.1:%d", re.bind[visitor])
 	conn, err := net.DialTimeout("tcp", addr, 10*time.Second)
 	if err != nil {
@@ -264,16 +268,22 @@ func realStream(c *h.Case, re *realEnv, visitor, proxy string, legit bool, what 
 		run.Distinct(fmt.Sprintf("real|%s|%s|refused", re.e.id, visitor))
 		return
 	}
-	_ = conn.SetDeadline(time.Now().Add(90 * time.Second))
+	// bounded-progress watchdog on a path without timers: 16 bytes there, an answer back
+	wd := 60 * time.Second
+	if n, ok := stcpSilent.Load(key); ok && n.(int) >= 2 {
+		wd = 8 * time.Second
+	}
+	_ = conn.SetDeadline(time.Now().Add(wd))
 	id, err := identExchange(conn, nonce)
 	if err != nil {
 		if isTimeout(err) {
-			run.Inconclusive("real stcp: ident watchdog")
-			return
+			n, _ := stcpSilent.LoadOrStore(key, 0)
+			stcpSilent.Store(key, n.(int)+1)
 		}
-		c.Violation("admitted-stream-not-transparent", "%s (%s -> %s): ident exchange through real frpc visitor and owner failed: %v", what, visitor, proxy, err)
+		c.Violation(key, "%s (visitor %s -> proxy %s on %s): ident exchange through an admitted real stcp visitor session failed: %v", what, visitor, proxy, re.e.id, err)
 		return
 	}
+	_ = conn.SetDeadline(time.Now().Add(90 * time.Second))
 	if id != "B-"+proxy+"|" {
 		c.Violation("visitor-bridged-to-wrong-proxy", "%s: visitor %s answered by %q, want backend of %s", what, visitor, id, proxy)
 		return
@@ -294,11 +304,11 @@ func realStream(c *h.Case, re *realEnv, visitor, proxy string, legit bool, what 
 	wg.Wait()
 	switch {
 	case mismatch:
-		c.Violation("admitted-stream-not-transparent", "%s: %v", what, rerr)
+		c.Violation(key, "%s: %v", what, rerr)
 	case rerr != nil && isTimeout(rerr):
 		run.Inconclusive("real stcp: stream watchdog")
 	case rerr != nil || n != size:
-		c.Violation("admitted-stream-truncated", "%s: %d of %d bytes came back (%v)", what, n, size, rerr)
+		c.Violation(key, "%s: %d of %d bytes came back (%v)", what, n, size, rerr)
 	default:
 		run.Count("stream_bytes_verified", n)
 		run.Count("real_streams_verified", 1)
@@ -306,7 +316,16 @@ func realStream(c *h.Case, re *realEnv, visitor, proxy string, legit bool, what 
 	}
 }
 
-func realDgram(c *h.Case, re *realEnv, visitor, proxy string, legit bool, what string, rng *rand.Rand) {
+// sudpSilent counts sudp sessions already reported as carrying nothing, per key: later cases of a tree that is
+// broken in that combination do not wait for the full watchdog again.
+var sudpSilent sync.Map
+
+// realDgram drives a real sudp visitor (frpc visitor of type sudp bound to a local UDP port; ve / vc are its
+// own useEncryption / useCompression) with tagged datagrams that the owner's UDP backend echoes. Transparent
+// means: at least one datagram comes back byte-exact (UDP: resent every 350 ms for up to 30 s, a bounded-progress
+// watchdog on a path without timers) and nothing that was not sent ever arrives.
+func realDgram(c *h.Case, re *realEnv, visitor, proxy string, legit bool, ve, vc bool, what string, rng *rand.Rand) {
+	key := fmt.Sprintf("sudp-visitor-session-not-transparent-enc-%v-comp-%v", ve, vc)
 	ua, _ := net.ResolveUDPAddr("udp", fmt.Sprintf("127.0.0.1:%d", re.bind[visitor]))
 	conn, err := net.DialUDP("udp", nil, ua)
 	if err != nil {
@@ -331,7 +350,11 @@ func realDgram(c *h.Case, re *realEnv, visitor, proxy string, legit bool, what s
 	run.Count("real_datagrams_sent", int64(nd))
 	got := 0
 	buf := make([]byte, 4096)
-	deadline := time.Now().Add(20 * time.Second)
+	start := time.Now()
+	deadline := start.Add(30 * time.Second)
+	if n, ok := sudpSilent.Load(key); ok && n.(int) >= 2 {
+		deadline = time.Now().Add(5 * time.Second)
+	}
 	if !legit {
 		deadline = time.Now().Add(700 * time.Millisecond)
 	}
@@ -351,7 +374,7 @@ func realDgram(c *h.Case, re *realEnv, visitor, proxy string, legit bool, what s
 				return
 			}
 			if !sent[string(buf[:n])] {
-				c.Violation("admitted-stream-not-transparent", "%s: echoed datagram of %d bytes is none of the %d datagrams sent (starts %q)", what, n, nd, buf[:min(n, 24)])
+				c.Violation(key, "%s: echoed datagram of %d bytes is none of the %d datagrams sent (starts %q)", what, n, nd, buf[:min(n, 24)])
 				return
 			}
 			got++
@@ -359,7 +382,19 @@ func realDgram(c *h.Case, re *realEnv, visitor, proxy string, legit bool, what s
 	}
 	if legit {
 		if got == 0 {
-			run.Inconclusive("real sudp: no datagram echoed within the watchdog")
+			atBackend := 0
+			pfx := fmt.Sprintf("LD%06d#", c.Idx%1000000)
+			if ub := re.udp[proxy]; ub != nil {
+				for _, d := range ub.Datagrams() {
+					if strings.HasPrefix(string(d.Payload), pfx) {
+						atBackend++
+					}
+				}
+			}
+			n, _ := sudpSilent.LoadOrStore(key, 0)
+			sudpSilent.Store(key, n.(int)+1)
+			c.Violation(key, "%s (visitor %s -> proxy %s on %s): %d distinct datagrams resent for %v through an admitted sudp visitor session, none was echoed; the owner's backend received %d of them",
+				what, visitor, proxy, re.e.id, nd, time.Since(start).Round(time.Second), atBackend)
 			return
 		}
 		run.Count("real_datagrams_verified", int64(got))
